@@ -454,7 +454,7 @@ func TestVerifC03Replay(t *testing.T) {
 	}
 
 	// ---- corpus: "l2 <cfg… now tick rht> <5 filter tokens> <npre> (<db> <hexkey>)* FILE" (pre-existing keys are strings "old")
-	for _, l := range vfutil.Corpus("C03") {
+	for _, l := range append(vfc03.ReplayOps(), vfutil.Corpus("C03")...) {
 		f := strings.Fields(l)
 		if len(f) < 20 || f[0] != "l2" {
 			continue
@@ -527,6 +527,13 @@ func TestVerifC03Replay(t *testing.T) {
 	}
 	for i, k := range cases {
 		o := outs[i]
+		if (o.Bad || o.File == nil) && k.src == "corpus" {
+			// a replayed / recorded input that is not a well-formed dataset (e.g. stream ids not
+			// increasing): nothing to judge
+			s.Count("corpus_or_replay_not_wellformed")
+			t.Logf("not a well-formed dataset description, skipped: %.200s", k.desc)
+			continue
+		}
 		if o.Bad || o.File == nil {
 			t.Fatalf("description rejected by the encoder: %s", k.desc)
 		}
